@@ -43,9 +43,11 @@ def _run_variant(args):
     mod = importlib.import_module(f"sa.checks.{prop.lower()}")
     rep = Rm.Report(prop=prop, tier="quick")
     try:
-        mod.check(var, rep)
-        if not rep.findings():
-            rep.check_nonvacuous()
+        try:
+            mod.check(var, rep)
+        except Rm.Abort:
+            pass
+        rep.check_nonvacuous()
     except AnalysisError as e:
         return ("error", [str(e)])
     except Exception as e:  # pragma: no cover - checker crash
